@@ -98,6 +98,7 @@ def run(run, replay=None):
     pool = [c for c in cases if c['prefixok']]
     for k, c in enumerate(rng.sample(pool, min(8, len(pool)))):
         z = copy.deepcopy(c)
+        z['canary_of'] = z['id']
         z['id'] = 'canary-%d' % k
         if k % 2:
             z['end'] = 'other:AssertionError'
